@@ -10,16 +10,17 @@
 EXTENDS Word, TLC
 
 CONSTANTS W,        \* width under test, <= 14 so that products stay below 2^31
-          FullB     \* TRUE: b ranges over all W-bit values; FALSE: over a boundary set
+          FullA,    \* TRUE: a ranges over all W-bit values; FALSE: over a boundary set
+          FullB     \* the same for b
 
 VARIABLES a, b, ph, za, zb     \* za, zb: the BigZ forms of a, b (state variables: evaluated once)
 
 Lo == -Pow2[W - 1]
 Hi == Pow2[W - 1] - 1
-RangeA == Lo..Hi
 BndB == {0, 1, -1, 2, -2, 3, -3, 7, -7, Hi, Hi - 1, Lo, Lo + 1}
         \cup UNION {{Pow2[k], Pow2[k] - 1, Pow2[k] + 1, -Pow2[k], -Pow2[k] - 1, 1 - Pow2[k]} : k \in 1..(W - 2)}
-RangeB == IF FullB THEN RangeA ELSE {x \in BndB : x >= Lo /\ x <= Hi}
+RangeA == IF FullA THEN Lo..Hi ELSE {x \in BndB : x >= Lo /\ x <= Hi}
+RangeB == IF FullB THEN Lo..Hi ELSE {x \in BndB : x >= Lo /\ x <= Hi}
 
 (* native reference definitions *)
 NWrap(n) == ((n + Pow2[W - 1]) % Pow2[W]) - Pow2[W - 1]
